@@ -9,7 +9,11 @@
 
 static vrng_t R; static volatile long CURI = -1; static const char* CURPATH = "";
 static void on_timer(int sig) { (void)sig; char b[64]; int n = snprintf(b, sizeof b, "HANG %ld\n", CURI); if (write(1, b, (size_t)n)) {} _exit(41); }
-static void viol(const char* key, const char* fmt, ...) { char d[400]; va_list ap; va_start(ap, fmt); vsnprintf(d, sizeof d, fmt, ap); va_end(ap); v_viol(key, "input=%ld %s", CURI, d); }
+static void viol(const char* key, const char* fmt, ...) { char d[400]; va_list ap; va_start(ap, fmt); vsnprintf(d, sizeof d, fmt, ap); va_end(ap); v_viol(key, "input=%ld %s", CURI, d);
+#ifdef FZ_MODE
+    fprintf(stderr, "API-CONTRACT %s %s\n", key, d); abort();   /* make libFuzzer keep the input; the verdict comes from replaying it through the list driver */
+#endif
+}
 
 static void check_err(const char* api, const carquet_error_t* e) { char key[96];
     if (e->code == CARQUET_OK) { snprintf(key, sizeof key, "api:failure-with-OK-error-code:%s", api); viol(key, ""); }
@@ -69,9 +73,10 @@ int main(int argc, char** argv) {
     if (argc < 4) return 2; (void)carquet_init(); uint64_t seed = strtoull(argv[2], 0, 10); long start = atol(argv[3]);
     FILE* lf = fopen(argv[1], "r"); if (!lf) return 2; char line[1024]; long idx = -1; signal(SIGVTALRM, on_timer);
     while (fgets(line, sizeof line, lf)) { idx++; size_t L = strlen(line); while (L && (line[L - 1] == '\n' || line[L - 1] == '\r')) line[--L] = 0; if (idx < start || !L) continue;
-        CURI = idx; CURPATH = line; printf("BEGIN %ld\n", idx); fflush(stdout); vrng_seed(&R, seed * 31 + (uint64_t)idx * 1000003);
+        CURI = idx; CURPATH = line; printf("BEGIN %ld\n", idx); fflush(stdout);
         struct itimerval tv = {{0, 0}, {20, 0}}; setitimer(ITIMER_VIRTUAL, &tv, NULL);
         size_t fn = 0; uint8_t* fb = rd_slurp(line, &fn); v_case(fb ? v_hash(fb, fn, 7) : 0);
+        vrng_seed(&R, seed * 31 + (fb ? v_hash(fb, fn, 7) : (uint64_t)idx));   /* the API program is a function of (seed, file content): the libFuzzer target derives the same program */
         for (int mode = 0; mode < 3; mode++) { carquet_error_t err; memset(&err, 0, sizeof err); carquet_reader_options_t ro; carquet_reader_options_init(&ro); ro.use_mmap = mode == IO_MMAP; ro.verify_checksums = (idx + mode) % 2 == 0; carquet_reader_t* rd;
             if (mode == IO_BUFFER) rd = fb ? carquet_reader_open_buffer(fb, fn, &ro, &err) : NULL; else rd = carquet_reader_open(line, &ro, &err);
             if (!rd) { if (fb || mode != IO_BUFFER) check_err("open", &err); v_count("open_rejected"); continue; }
